@@ -268,6 +268,8 @@ class Interp:
             return f(*args, **kwargs)
         if isinstance(f, Method):
             return self.call_method(f.obj, f.name, args, kwargs)
+        if isinstance(f, Obj) and f.has_field('__call__'):
+            return self.call_value(f.field('__call__') if hasattr(f, 'field') else getattr(f, '__call__'), args, kwargs, name)
         if isinstance(f, type) and issubclass(f, BaseException):
             return ExcVal(f, args)
         if isinstance(f, Native) or isinstance(getattr(f, '__self__', None), Native):
